@@ -24,7 +24,9 @@ def rec(prop, clause, inputs, detail=""):
 
 
 STRINGS = ["x", "a b", "a'b", "a\\b", "a|b", "\\27", "\\5c", "5c\\5c27", "C:\\27\\bin", "it's", "'", "\\", "\\\\", "''", "é", "日本", " lead", "trail ", "(x)", "a$b",
-           "x'", "'x", "\\'", "'\\", "a\\5Cb", "{1}", "X-A 'b'", "\U0001F600"]
+           "x'", "'x", "\\'", "'\\", "a\\5Cb", "{1}", "X-A 'b'", "\U0001F600",
+           # texts that differ only in the kind / amount of white space, and in letter case (a parser that normalises or caches would merge them)
+           "a  b", "a\tb", "a\u00a0b", "A B", "x ", " x"]
 OIDLISTS = [[], ["top"], ["a", "2.5.4.3"], ["cn", "sn", "1.2.840.113556.1.4.1"]]
 NAMES = [[], ["cn"], ["a", "b-c"], ["commonName", "cn", "x-1"]]
 EXTS = [{}, {"FOO": ["v"]}, {"A": ["v1", "v2"], "B-C_d": ["it's"]}, {"ORIGIN": ["RFC 4519"], "x": ["a\\b", "c'd", "e|f"]}]
